@@ -33,6 +33,8 @@ def gen_cases(tier, seed):
         nsh = 1 + i % 3
         ls = [int(x) for x in rng.integers(0, lmax + 1, size=nsh)]
         ls[0] = i % (lmax + 1)
+        if tier == "quick" and i in (3, 12):
+            ls[0] = 4 if i == 3 else 3  # one g and one f shell in the quick tier as well (single shell: nsh = 1 for these i)
         pats = bases.type_patterns(nsh)
         tp = list(pats[(i // 3) % len(pats)])
         shells = []
